@@ -148,7 +148,11 @@ fn decode_seq(src: &mut Source) -> SeqCase {
                 if src.chance(40) {
                     SStep::MixInc(1 + src.int_in(0, 1000))
                 } else {
-                    SStep::Inc(src.below(2), 1 + src.int_in(0, 1000))
+                    // the top of the range stands for increments near 2^64 and 2^63: the running total of a counter
+                    // wraps, and the deltas are then exact modulo 2^64 (same bytes consumed as before)
+                    let d = src.int_in(0, 1000);
+                    let v = if d >= 985 { [u64::MAX, u64::MAX - 10, u64::MAX - 1000, 1 << 63, (1 << 63) + 5, u64::MAX / 2, u64::MAX / 3, 1 << 62][(d - 985) as usize % 8] } else { 1 + d };
+                    SStep::Inc(src.below(2), v)
                 }
             }
             2 => {
@@ -176,6 +180,8 @@ struct CounterModel {
     idle: bool,
     abs_last: Option<u64>,
     went_idle_then_changed: bool,
+    total: u128,
+    total_at_flush: u128,
 }
 
 pub fn case_seq(bytes: &[u8], _s: &[u8], ctx: &mut Ctx) -> Result<(), Fail> {
@@ -233,6 +239,7 @@ pub fn case_seq(bytes: &[u8], _s: &[u8], ctx: &mut Ctx) -> Result<(), Fail> {
                 let m = &mut inc[*i];
                 m.registered = true;
                 m.pending = m.pending.wrapping_add(*v);
+                m.total += *v as u128;
                 m.updates += 1;
             }
             SStep::Abs(i, d) => {
@@ -281,6 +288,11 @@ pub fn case_seq(bytes: &[u8], _s: &[u8], ctx: &mut Ctx) -> Result<(), Fail> {
                             ensure!(got.is_empty(), "message-for-unregistered-counter", "{} never registered but sent", name);
                             continue;
                         }
+                        if m.total > u64::MAX as u128 && m.total_at_flush > 0 && m.total_at_flush <= u64::MAX as u128 {
+                            ctx.nontrivial("counter-running-total-passes-2^64-in-a-later-flush-window");
+                        }
+                        m.total_at_flush = m.total;
+                        // (increments adding up to exactly 2^64 within one window give a delta of 0 for an active counter)
                         let expect: Option<u64> = if m.updates > 0 {
                             if m.idle {
                                 m.went_idle_then_changed = true;
